@@ -360,10 +360,10 @@ func runC05(rc *RunCtx) {
 			// a command that ends by itself (the root exits early) may do so at the very moment of the stop request:
 			// when Execute does not report a context kind it did not act on the request - it had finished on its own,
 			// which is the same situation as "returned before the stop request", only decided a moment later
-			// ... provided Execute was over within 20 ms of the request: one that went on for longer (e.g. waiting for the
+			// ... provided Execute was over within 100 ms of the request: one that went on for longer (e.g. waiting for the
 			// output pipes a descendant still holds) was running when it was asked to stop, whatever it then returns
 			if startMode == 0 && tree.exitEarly && !commonerrors.Any(execErr, commonerrors.ErrCancelled, commonerrors.ErrTimeout) &&
-				time.Unix(0, execReturnedAt.Load()).Sub(stopAt) < 20*time.Millisecond {
+				time.Unix(0, execReturnedAt.Load()).Sub(stopAt) < 100*time.Millisecond {
 				res.Probe("execute-ended-by-itself-at-the-stop-request")
 				res.NonTrivial = false
 				if rc.KeepTrace {
